@@ -91,7 +91,7 @@ def confirm(v):
     return not (rs == M and ri == exp), out
 
 
-def validate(prog, ovs, rng, n):
+def validate(prog, ovs, rng, n, rep=None):
     cases = []
     for i in range(n):
         ov = rng.choice(ovs)
@@ -103,6 +103,12 @@ def validate(prog, ovs, rng, n):
                              for ov, x, sa, y, sb in cases])
     mism = []
     for (ov, x, sa, y, sb), nat in zip(cases, native):
+        if rep is not None:
+            M = max(sa, sb)
+            exp = H.dec_str(trunc_rem(x * 10 ** (M - sa), y * 10 ** (M - sb)), M)
+            if nat != exp:
+                H.probe_violation(rep, PROP, 'native (%d@%d) %% (%d@%d) via %s gives %s, exact %s' % (x, sa, y, sb, ov['path'], nat, exp), {'ov': ov, 'ga': sa, 'gb': sb, 'div': 'probe'}, {'x': x, 'y': y, 's0': 0}, nat)
+                continue
         m = E.Machine(prog, (), [], E.Stats(), loop_bound=2000)
         try:
             ri, rs = c01.call_binop(m, ov, x, sa, y, sb)
@@ -139,7 +145,7 @@ def main(tier):
     rep.assumptions = ['BigInt % BigInt is truncated remainder (sign of dividend, |r|<|d|, independent of the divisor sign): trusted contract of num-bigint, modelled by an uninterpreted function for symbolic divisors and by the linear definition for concrete divisors']
     rep.outside = ['|scale| > 2^60', 'gaps not listed']
     sys.stderr.write('[C09] %d overloads, %d tasks\n' % (len(ovs), len(tasks)))
-    rep.validated, rep.validation_mismatches = validate(prog, ovs, rng, 200 if tier == 'quick' else 2000)
+    rep.validated, rep.validation_mismatches = validate(prog, ovs, rng, 200 if tier == 'quick' else 2000, rep)
     results = H.run_parallel(tasks, worker, progress=2000)
     rep.add(results)
     for r in results:
